@@ -157,6 +157,8 @@ def tv_cases(seed, n_cases):
         elif fam == "wseq":
             ops.append(("winit", 0))
             m1, W = 0.0, 0.0
+            # the unit of the weights: scaling by a power of two keeps every operation exact (d/(s*W) = (d/W)/s)
+            unit = rng.choice([1.0, 1.0, 2.0 ** -60, 2.0 ** -200, 2.0 ** 60, 2.0 ** -53])
             for _ in range(rng.randint(0, 6)):
                 w = rng.choice([0.0, 1.0, 2.0, 0.5, 4.0, 3.0])
                 if w == 0.0:
@@ -164,7 +166,7 @@ def tv_cases(seed, n_cases):
                     continue
                 delta = _ri(rng, -4, 4)
                 x = m1 + (W + w) * delta if W > 0 else _ri(rng, -9, 9)
-                ops.append(("wadd", 0, x, w))
+                ops.append(("wadd", 0, x, w * unit))
                 m1 = m1 + w * delta if W > 0 else x
                 W += w
             ops += [("wget", 0), ("wstat", 0)]
@@ -647,7 +649,18 @@ def gen_values(rng, fam, n):
 VALUE_FAMS = ["small_int", "uniform", "normal", "lognormal", "constant", "offset", "huge", "tiny", "mixed", "two_point", "sorted"]
 
 
-def gen_weights(rng, n, zero_ok=True):
+TINY_UNITS = [2.0 ** -60, 2.0 ** -200, 2.0 ** -53, 2.0 ** -80]
+
+
+def gen_weights(rng, n, zero_ok=True, unit=None):
+    """`unit`: all weights are multiplied by this power of two (exactly): weights that are tiny (or huge) in ABSOLUTE terms.
+    By default one sequence in six gets such a unit: nothing in the property depends on the unit of the weights."""
+    if unit is None:
+        unit = rng.choice(TINY_UNITS + [2.0 ** 60]) if rng.random() < 1.0 / 6 else 1.0
+    return [w * unit for w in _gen_weights(rng, n, zero_ok)]
+
+
+def _gen_weights(rng, n, zero_ok=True):
     mode = rng.choice(["unit", "int", "uniform", "dyadic", "durations", "wide"])
     ws = []
     for _ in range(n):
@@ -688,6 +701,9 @@ def gen_scenarios(seed, total, quick=True, exclude=()):
         fam = rng.choice(VALUE_FAMS)
         n = gen_length(rng, quick)
         xs = gen_values(rng, fam, n)
+        # weights / times in a tiny or huge UNIT only together with values of moderate magnitude: 2^-200 * (1e-70)^4 or
+        # (1e70 * 2^200)^3 leave the range of a double, which is a matter of range, not of the property
+        unit = 1.0 if fam in ("huge", "tiny") else None
         new = []
         if kind == "seq":
             new.append({"kind": "seq", "xs": xs})
@@ -713,19 +729,28 @@ def gen_scenarios(seed, total, quick=True, exclude=()):
             new.append({"kind": "wmerge", "parts": wparts, "target": rng.choice(["new", "a", "b"]),
                         "order": rng.choice(["ab", "ba"]), "then": [[x, 2.0] for x in gen_values(rng, "small_int", rng.randint(0, 3))]})
         elif kind == "wseq":
-            new.append({"kind": "wseq", "xws": [list(p) for p in zip(xs, gen_weights(rng, len(xs)))]})
+            new.append({"kind": "wseq", "xws": [list(p) for p in zip(xs, gen_weights(rng, len(xs), unit=unit))]})
         elif kind == "wmerge":
-            xws = [list(p) for p in zip(xs, gen_weights(rng, len(xs)))]
+            xws = [list(p) for p in zip(xs, gen_weights(rng, len(xs), unit=unit))]
             k = rng.randint(0, len(xws))
             new.append({"kind": "wmerge", "parts": [xws[:k], xws[k:]], "target": rng.choice(["new", "a", "b"]),
                         "order": rng.choice(["ab", "ba"]), "then": []})
         elif kind == "wscale":
-            xws = [list(p) for p in zip(xs, gen_weights(rng, len(xs)))]
-            new.append({"kind": "wscale", "xws": xws, "c": rng.choice([10.0, 0.1, 2.0, 1000.0, 3.0, 1e-6, 0.5])})
+            xws = [list(p) for p in zip(xs, gen_weights(rng, len(xs), unit=unit))]
+            wmax = max([w for _, w in xws] + [0.0])
+            if wmax and wmax < 1e-12:
+                c = rng.choice([2.0 ** 60, 2.0 ** 52, 10.0])          # tiny weights: back to ordinary magnitude
+            elif wmax > 1e12:
+                c = rng.choice([2.0 ** -60, 0.1])
+            elif unit == 1.0:
+                c = rng.choice([10.0, 0.1, 2.0, 1000.0, 3.0, 1e-6, 0.5])
+            else:
+                c = rng.choice([10.0, 0.1, 2.0, 1000.0, 3.0, 1e-6, 0.5, 2.0 ** -60, 2.0 ** -200, 2.0 ** -53])
+            new.append({"kind": "wscale", "xws": xws, "c": c})
         elif kind == "wunit":
             new.append({"kind": "wunit", "xs": xs})
         elif kind == "wzero":
-            ws = gen_weights(rng, len(xs))
+            ws = gen_weights(rng, len(xs), unit=unit)
             for i in range(len(ws)):
                 if rng.random() < 0.3:
                     ws[i] = 0.0
@@ -740,7 +765,10 @@ def gen_scenarios(seed, total, quick=True, exclude=()):
             for x in xs:
                 xts.append([x, t])
                 t += rng.choice([0.0, 1.0, 0.5, rng.expovariate(1.0), rng.uniform(0, 3)])
-            new.append({"kind": "timeseries", "xts": xts, "tend": t + rng.choice([0.0, 1.0, rng.uniform(0, 2)])})
+            tend = t + rng.choice([0.0, 1.0, rng.uniform(0, 2)])
+            # the time unit: the same history recorded in a unit 2^60 (2^200) times larger has time stamps 2^-60 times smaller
+            tu = 1.0 if unit == 1.0 else rng.choice([1.0, 1.0, 1.0, 2.0 ** -60, 2.0 ** -200, 2.0 ** 40])
+            new.append({"kind": "timeseries", "xts": [[x, tt * tu] for x, tt in xts], "tend": tend * tu})
         for s in new:
             s["fam"] = fam
             if any(pred(s) for pred in exclude):
